@@ -108,6 +108,13 @@ func (c *trCtx) assignedIn2(through bool, nodes ...ast.Node) []types.Object {
 				if id, ok := x.Fun.(*ast.Ident); ok && id.Name == "delete" && len(x.Args) == 2 {
 					mark(x.Args[0])
 				}
+				if fo := c.calledFunc(x); fo != nil {
+					if p, ok := trPrims[fo.FullName()]; ok && p.mutRecv {
+						if sel, ok := trUnparen(x.Fun).(*ast.SelectorExpr); ok {
+							mark(sel.X)
+						}
+					}
+				}
 				if tf, recv := c.calleeOf(x); tf != nil {
 					for _, mi := range tf.mut {
 						if a := c.callArg(x, recv, tf, mi); a != nil {
@@ -458,6 +465,17 @@ func (c *trCtx) exprStmt(x *ast.ExprStmt, k trK) trLines {
 	}
 	if tf, recv := c.calleeOf(call); tf != nil && len(tf.mut) > 0 {
 		return c.mutCall(call, tf, recv, nil, false, k)
+	}
+	// a prelude method that writes to its receiver (strings.Builder): the receiver is rebound, the results are dropped
+	if fo := c.calledFunc(call); fo != nil {
+		if p, ok := trPrims[fo.FullName()]; ok && p.mutRecv {
+			sel := trUnparen(call.Fun).(*ast.SelectorExpr)
+			args := []string{c.expr(sel.X)}
+			for _, a := range call.Args {
+				args = append(args, c.expr(a))
+			}
+			return c.store(sel.X, "("+p.lean+" "+strings.Join(args, " ")+")", x.Pos(), k)
+		}
 	}
 	// a call for its effect (panic) only
 	v := c.expr(call)
